@@ -14,7 +14,7 @@ RULE = ("four kinds of generated cases on C03 systems with repeated molecule nam
         "selection (name and index, resname and resid); (2) -start specifications with every subset of fields - "
         "the residue placed with a start placement must be the first residue matching the specification; "
         "(3) -lig specifications - after the run the ligand residue sits one step (minimum image) from its host "
-        "residue, hosts have their original residues, the molecule list is unchanged; (4) -split specifications - "
+        "residue, hosts have their original residues, the molecule list is unchanged; (4) one to three -split specifications with new residue names from a shared pool - "
         "the new residues partition the atoms, named atoms carry the new residue name, the .gro lists every atom "
         "once in the original order. non-trivial = two [ molecule ] blocks for one name with different ranges, a "
         "block covering a molecule of another name, a specification with an omitted field, a ligand, or a split; "
@@ -144,18 +144,24 @@ def _split_case(draw):
         spec["moltypes"][0]["residues"][0]["atoms"].append({"name": "zz", "type": spec["atomtypes"][0]["name"], "mass": 36.0})
         spec["moltypes"][0]["residues"][0]["bonds"].append([0, len(spec["moltypes"][0]["residues"][0]["atoms"]) - 1, 0.3])
         cands = sorted({r["resname"]: r for mt in spec["moltypes"] for r in mt["residues"] if len(r["atoms"]) >= 2}.items())
-    resname, rd = draw(st.sampled_from(cands))
-    n = len(rd["atoms"])
-    cut = draw(st.integers(1, n - 1))
-    order = list(draw(st.permutations(range(n))))
-    groups = [sorted(order[:cut]), sorted(order[cut:])]
-    parts = []
-    for gi, grp in enumerate(groups):
-        parts.append(f"X{gi + 1}-" + ",".join(rd["atoms"][i]["name"] for i in grp))
+    # one to three split strings for different residue names; the names of the new residues come from a
+    # small pool and may be reused by different strings
+    chosen = draw(st.lists(st.sampled_from(cands), min_size=1, max_size=3, unique_by=lambda c: c[0]))
+    strings, splits = [], []
+    for resname, rd in chosen:
+        n = len(rd["atoms"])
+        ngroups = draw(st.integers(2, min(3, n)))
+        order = list(draw(st.permutations(range(n))))
+        cuts = sorted(draw(st.lists(st.integers(1, n - 1), min_size=ngroups - 1, max_size=ngroups - 1, unique=True)))
+        groups = [sorted(order[i:j]) for i, j in zip([0] + cuts, cuts + [n])]
+        newnames = draw(st.lists(st.sampled_from(["X1", "X2", "X3"]), min_size=ngroups, max_size=ngroups, unique=True))
+        strings.append(f"{resname}:" + ":".join(nn + "-" + ",".join(rd["atoms"][i]["name"] for i in grp)
+                                                for nn, grp in zip(newnames, groups)))
+        splits.append({"resname": resname, "groups": {nn: [rd["atoms"][i]["name"] for i in grp]
+                                                      for nn, grp in zip(newnames, groups)}})
     edge = gc.dilute_box(spec)
-    spec["opts"] = {"box": [edge, edge, edge], "split": [f"{resname}:" + ":".join(parts)]}
-    spec["split"] = {"resname": resname, "groups": {f"X{gi + 1}": [rd["atoms"][i]["name"] for i in grp]
-                                                     for gi, grp in enumerate(groups)}}
+    spec["opts"] = {"box": [edge, edge, edge], "split": strings}
+    spec["split"] = splits
     spec["kind"] = "split"
     return spec
 
@@ -397,12 +403,13 @@ def check_lig(spec, ctx, res, topo, names):
 
 
 def check_split(spec, ctx, res, topo, names):
-    sp = spec["split"]
+    splits = spec["split"] if isinstance(spec["split"], list) else [spec["split"]]
     by_name = {mt["name"]: mt for mt in spec["moltypes"]}
     new_of = {}
-    for new, atoms in sp["groups"].items():
-        for a in atoms:
-            new_of[a] = new
+    for sp in splits:
+        for new, atoms in sp["groups"].items():
+            for a in atoms:
+                new_of[(sp["resname"], a)] = new
     if res.gro_text is None or isinstance(res.gro, Exception):
         raise Violation("split:no_output", "no readable structure written")
     want = gc.expanded_atoms(spec)
@@ -412,9 +419,35 @@ def check_split(spec, ctx, res, topo, names):
     for i, (w, g) in enumerate(zip(want, got), start=1):
         if g["name"] != w[2]:
             raise Violation("split:atom_order", f"line {i}: atom {g['name']} expected {w[2]}")
-        expect_res = new_of[w[2]] if w[1] == sp["resname"] else w[1]
+        expect_res = new_of.get((w[1], w[2]), w[1])
         if g["resname"] != expect_res:
             raise Violation("split:resname", f"line {i}: atom {g['name']} in residue {g['resname']} expected {expect_res}")
+    # the residues after the split: one per (original residue, group); atoms never move between them
+    offset = 0
+    per_mol = {}
+    for gi, w in enumerate(want):
+        per_mol.setdefault(w[3], []).append((gi, w))
+    for mi, meta in enumerate(topo.molecules):
+        rows = per_mol.get(mi, [])
+        atom_keys = list(meta.molecule.nodes)
+        if len(atom_keys) != len(rows):
+            raise Violation("split:atom_count", f"molecule {mi}: {len(atom_keys)} atoms, topology has {len(rows)}")
+        expected = {}
+        for key, (gi, w) in zip(atom_keys, rows):
+            expected.setdefault((w[4], new_of.get((w[1], w[2]), w[1])), set()).add(key)
+        have = [frozenset(meta.nodes[node]["graph"].nodes) for node in meta.nodes]
+        want_sets = {frozenset(v) for v in expected.values()}
+        if len(have) != len(want_sets) or set(have) != want_sets:
+            odd = [sorted(h) for h in have if h not in want_sets][:2]
+            raise Violation("split:residues", f"molecule {mi}: {len(have)} residues after the split, expected {len(want_sets)} "
+                                              f"(one per original residue and group); unexpected atom sets {odd}")
+        ids = [(meta.nodes[node].get("resid"), meta.nodes[node].get("resname")) for node in meta.nodes]
+        if len(set(ids)) != len(ids):
+            raise Violation("split:duplicate_residue_id", f"molecule {mi}: residue (resid, resname) pairs repeat: {sorted(ids)}")
+    if len(splits) > 1:
+        ctx.label("several_split_strings")
+        if len({n for sp in splits for n in sp["groups"]}) < sum(len(sp["groups"]) for sp in splits):
+            ctx.label("split_names_reused")
     # residue graphs partition the atoms
     for mi, meta in enumerate(topo.molecules):
         seen = []
